@@ -166,7 +166,7 @@ def insert_harness(kind: str, cname: str, cls: type, alts: dict[str, str], dict_
 
 
 # --------------------------------------------------------------------------- ECU._request
-OUTCOMES = ["return", "response-exception", "other-exception", "cancelled"]
+OUTCOMES = ["return", "response-exception", "other-exception", "cancelled", "illegal-response"]
 
 
 def ecu_harness(logging_on: bool, db: bool, tags: str):
@@ -198,10 +198,17 @@ def ecu_harness(logging_on: bool, db: bool, tags: str):
 
         def super_request(I2: Interp, self_: V, rq: V, config: V = NONE) -> V:
             def go() -> V:
-                k = I2.choose([z3.BoolVal(True)] * 4)
+                k = I2.choose([z3.BoolVal(True)] * 5)
                 I2.ghost["outcome"] = OUTCOMES[k]
                 if k == 0:
                     return resp
+                if k == 4:
+                    # a reply that was read but does not belong to the request (stale / foreign):
+                    # it is logged, and the replaying server will see it - so must the client
+                    e = VObj(X.RequestResponseMismatch, {"request": rq, "response": eresp,
+                                                         "args": VTuple([])})
+                    I2.ghost["exc"] = e
+                    raise PyExc(e)
                 if k == 1:
                     e = VObj(X.UnexpectedResponse, {"request": rq, "response": eresp,
                                                     "args": VTuple([])})
@@ -262,7 +269,8 @@ def ecu_harness(logging_on: bool, db: bool, tags: str):
             I.prove("E-row-request-is-parse_dynamic(request.pdu)",
                     z3.BoolVal(isinstance(rq, VObj) and rq.fields.get("_pdu") is
                                request.fields["_pdu"]))
-            exp_resp = {"return": resp, "response-exception": eresp}.get(out, NONE)
+            exp_resp = {"return": resp, "response-exception": eresp,
+                        "illegal-response": eresp}.get(out, NONE)
             I.prove(f"E-row-response({out})", z3.BoolVal(rs is exp_resp))
             I.prove(f"E-row-exception({out})", z3.BoolVal(
                 ex_ is (NONE if out == "return" else I.ghost.get("exc")) or
@@ -275,7 +283,7 @@ def ecu_harness(logging_on: bool, db: bool, tags: str):
                                                                   (out == "return")))
             I.prove("E-row-mode", z3.BoolVal(isinstance(mode, VConst) and mode.py is (
                 LogMode.emphasized if tags == "analyze" else LogMode.implicit)))
-        want_upd = 1 if out in ("return", "response-exception") else 0
+        want_upd = 1 if out in ("return", "response-exception", "illegal-response") else 0
         I.prove(f"E-state-updated-from-the-response({out})",
                 z3.BoolVal(I.ghost["state_updates"] == want_upd))
     return harness
